@@ -6,6 +6,7 @@ import p_geometry
 import p_tracker
 import p_sched
 import p_upload
+import p_peerfsm
 
 HOOK_COMMITS = ["ad8b203", "23d7fe8", "8de280d", "16a7335"]
 
@@ -18,6 +19,13 @@ _PS_NOTE = ("Trusted: TLC, the Go harness (gate scheduler, content PRF, projecti
 _B4 = "TLC-enumerated case table (TLA+ decision function over boundary classes) executed on the real code, outcomes checked by TLC against the specification's invariants"
 
 REGISTRY = {
+    "C05": {"run": p_peerfsm.run, "design": "DESIGN.md section 3 C05",
+            "technique": "TLC model checking of PeerFsm.tla + every (state class x message class) edge and random message sequences executed on peer.handleMessage and tor.handleEvent with crash/hang/allocation monitors",
+            "level": "PeerFsm.tla predicts accept/disconnect for ~170 message classes (boundary indexes 0, last, n, 2^30, 2^32-1; offsets; lengths; payload sizes; "
+                     "extended handshakes; metadata, PEX) in every capability/metadata state; every edge of its graph and random sequences are concretised and "
+                     "handled by the real peer handler in that state, the resulting events by the real torrent handler; panics, non-termination and allocation "
+                     "beyond the bound are violations, outcome mismatches are reported as nonconformance.",
+            "note": "Trusted: TLC, the stepping shims, TotalAlloc. Sequences up to 10 messages."},
     "C16": {"run": p_upload.run, "design": "DESIGN.md section 3 C16",
             "technique": "TLC exhaustive model checking of Upload.tla + TLC-simulated behaviours applied to the real peer handlers with every written message checked",
             "level": "Upload.tla (interest, choking with counter, request queue with head drop, cancel, upload tick serving/rejecting, eviction) is model-checked "
